@@ -301,7 +301,8 @@ def observe (k : Kind) (n : Node) : Obs :=
   match k with
   | .node => { g := getters n, runA := runNode n, runB := runNode nB, hwm := 0, g2 := getters nB }
   | .batch => { g := getters n, runA := runBatch n, runB := runBatch nB,
-                hwm := batchWidth nB.base.batchConcurrency, g2 := getters nB }
+                -- with a retry budget < 1 no exec call is ever made, so nothing is ever in flight
+                hwm := if nB.base.maxRetries ≤ 0 then 0 else batchWidth nB.base.batchConcurrency, g2 := getters nB }
 
 /-- the model's observation of a scenario -/
 def modelObs (k : Kind) (steps : List Step) : Obs := observe k (build k steps)
